@@ -27,6 +27,16 @@ LEVEL_NOTE = (
 
 CHECKS = {
     # id: (technique, level text, design ref, extra note)
+    "C02": (
+        "deterministic simulation: seeded operation histories with cache-state faults (warm/evict/update_full flips); step invariant I_mass against numpy closed-form integrals, evaluated on clones",
+        "Seeded search over operation histories and fault schedules (sampling). After every step, every measure/density the step created or mutated is checked: the function it evaluates to, all integral variants, unit mass and independent normal log-density for densities, get_density/normalize. Exploration level: finds history-dependent mass errors (stale lnZ, carried log-dets, determinant-lemma slips) that single-call tests cannot reach; a clean batch is evidence, not proof.",
+        "DESIGN.md section 4 (C02), 3",
+    ),
+    "C04": (
+        "deterministic simulation: seeded operation histories x seeded fault schedules (warm / duplicate query / evict-rebuild / fast-path flip); step invariant I_coh against numpy slogdet/solve + baseline-vs-perturbed twin runs",
+        "Seeded search over histories of public operations and over schedules of cache-populating queries, evictions and fast-path toggles. Invariant I_coh on every object a step creates, mutates or reads; twin runs must return the same observations as the unperturbed baseline. Exploration level: this is the property the technique fits best (every reachable state coherent, reads unobservable); sampling, not exhaustive.",
+        "DESIGN.md section 4 (C04), 3",
+    ),
 }
 
 
